@@ -5,8 +5,9 @@ from ex import Sc, Sym, Agg, Ref, Cell, Abs, Opaque, Unsupported, Infeasible, UN
 
 
 def norm(c):
+    c = c.replace("->", "\u2192")                                     # arrows inside fn-pointer types are not brackets
     c = re.sub(r"::<(?!impl )[^<>]*(<[^<>]*>[^<>]*)*>", "", c)     # turbofish
-    c = c.replace("'_", "").replace("<>", "")
+    c = c.replace("'_", "").replace("<>", "").replace("\u2192", "->")
     return c
 
 
@@ -507,6 +508,21 @@ def _unwrap_or_else(ex, callee, argv):
     raise Unsupported("unwrap_or_else on %r" % (o,))
 
 
+def _get_or_insert_with(ex, callee, argv):
+    """Option::get_or_insert_with(&mut self, f): keep a present value, otherwise store f()"""
+    r = argv[0]
+    o = ex.load(r)
+    if not (isinstance(o, Agg) and isinstance(o.variant, int)):
+        raise Unsupported("get_or_insert_with on %r" % (o,))
+    if o.variant == 0:
+        f = argv[1]
+        if not (isinstance(f, Opaque) and f.tag.startswith("fn:")):
+            raise Unsupported("get_or_insert_with with a closure")
+        v = ex.call(f.tag[3:], [])
+        ex.store(r, Agg([v], 1, o.name or "Option"))
+    return Ref(r.cell, r.path + (0,), None, True)
+
+
 def _option_as_ref(ex, callee, argv):
     r = argv[0]
     o = ex.load(r)
@@ -625,6 +641,7 @@ TABLE = [
     (re.compile(r"^<Vec<u8> as WriteBytesExt>::write_u8$"), _write_u8),
     (re.compile(r"^slice::<impl \[Vec<\w+>\]>::concat$"), _concat_vecs),
     (re.compile(r"^Option::unwrap_or_else$"), _unwrap_or_else),
+    (re.compile(r"^Option::get_or_insert_with$"), _get_or_insert_with),
     (re.compile(r"^<(Result|Option)<.*> as Try>::branch$"), _try_branch),
     (re.compile(r"^<(Result|Option)<.*> as FromResidual<.*>>::from_residual$"), _from_residual),
     (re.compile(r"^<&(mut )?(Vec<.*>|\[.*\]) as IntoIterator>::into_iter$"), _ref_into_iter),
